@@ -27,9 +27,12 @@ import (
 	"bytes"
 	"encoding/binary"
 	"fmt"
+	"io"
+	"os"
 	"sort"
 	"strings"
 	"sync"
+	"syscall"
 	"time"
 
 	"github.com/lugu/qiloop/bus/net"
@@ -62,10 +65,12 @@ type c13rawSent struct {
 type c13rawStep struct {
 	text string // the operation, for humans
 	coq  string // the operation with what was observed, for SignalsRaw.raw_agrees
-	kind int    // 0 register, 1 unregister, 2 emit
+	kind int    // 0 register, 1 unregister, 2 emit, 3 the health of a connection changes
 	sig  uint32
 	p    uint32
 	sent []c13rawSent
+	// emissions: the connections the object cannot be expected to reach (every write fails, or one failure is pending)
+	unreachable map[int]bool
 }
 
 type c13rawReader struct {
@@ -83,10 +88,119 @@ type c13raw struct {
 	stopped bool // a call was not answered: nothing more is sent to the mailbox
 	fails   [][2]string
 	pcount  uint32
+	// connections in bad health (round 5)
+	bad    map[int]int    // connection -> kind of RBreak that made every write to it fail (0, 1, 2)
+	once   map[int]*c13once // connection -> transient failures to come
+	slow   map[int]bool   // connection -> its Event writes block until the harness lets them go
+	closed map[int]bool   // connection closed by the sequence
 }
 
 func c13rawNew(nconn int) *c13raw {
-	return &c13raw{w: c13new(nconn), readers: map[[2]int]*c13rawReader{}, pcount: 100}
+	return &c13raw{w: c13new(nconn), readers: map[[2]int]*c13rawReader{}, pcount: 100,
+		bad: map[int]int{}, once: map[int]*c13once{}, slow: map[int]bool{}, closed: map[int]bool{}}
+}
+
+// ---- connections in bad health ----
+//
+// The server side of a connection keeps READING whatever happens to the other direction, and an endpoint
+// gives a connection up only when reading fails: a peer that is half dead (shutdown(SHUT_RD), a reset that
+// only the writer sees, a full socket buffer) stays registered.  The link refuses or delays the object's
+// writes, nothing else changes.
+
+const (
+	c13brkFail  = 0 // every write fails with an error that is not io.EOF (EPIPE, ECONNRESET)
+	c13brkEOF   = 1 // every write fails with io.EOF: UpdateSignal forgets the registration it was writing to
+	c13brkClose = 2 // the whole connection is closed (by the peer): writes fail, the closers forget the registrations
+	c13brkOnce  = 3 // the Event writes of the next emission that reaches the connection fail (not io.EOF), later ones succeed
+	c13brkSlow  = 4 // Event writes block for a while
+)
+
+// c13once: transient failures of a connection.  One failure lasts for the Event writes of ONE emission (the
+// first event written to the connection while a failure is pending, and every other frame of that same event):
+// what an emission sends does not depend on the order of the registrations then.
+type c13once struct {
+	mu      sync.Mutex
+	pending int
+	failing bool
+	event   uint32
+}
+
+func (o *c13once) arm() { o.mu.Lock(); o.pending++; o.mu.Unlock() }
+func (o *c13once) armed() bool {
+	o.mu.Lock()
+	defer o.mu.Unlock()
+	return o.pending > 0
+}
+func (o *c13once) write(event uint32) error {
+	o.mu.Lock()
+	defer o.mu.Unlock()
+	if o.failing && o.event == event {
+		return syscall.EPIPE
+	}
+	if o.pending > 0 {
+		o.pending--
+		o.failing, o.event = true, event
+		return syscall.EPIPE
+	}
+	return nil
+}
+
+var c13brkNames = []string{"every write fails (EPIPE / ECONNRESET)", "every write fails with io.EOF", "the connection is closed",
+	"the Event writes of the next emission fail (EPIPE)", "Event writes block until the peer takes them (slow)"}
+
+func (r *c13raw) usable(c int) bool { _, b := r.bad[c]; return !b }
+
+// breakConn: from now on connection c is in bad health of kind k.
+func (r *c13raw) breakConn(c, k int) {
+	if r.stopped || !r.usable(c) {
+		return
+	}
+	l := r.w.clients[c].c.Down
+	sid := r.w.sid
+	text := ""
+	switch k {
+	case c13brkFail:
+		err := error(syscall.EPIPE)
+		if (c+len(r.steps))%2 == 1 {
+			err = syscall.ECONNRESET
+		}
+		l.SetFailIf(func(rig.Frame) error { return err })
+		r.bad[c] = k
+		text = fmt.Sprintf("from now on every write to connection %d fails with %v (the server still reads from it: nothing unregisters it)", c, err)
+	case c13brkEOF:
+		l.SetFailIf(func(rig.Frame) error { return io.EOF })
+		r.bad[c] = k
+		text = fmt.Sprintf("from now on every write to connection %d fails with io.EOF (the server still reads from it)", c)
+	case c13brkClose:
+		r.w.clients[c].c.Close()
+		r.bad[c], r.closed[c] = k, true
+		text = fmt.Sprintf("connection %d is closed by its peer", c)
+		if len(r.steps)%2 == 0 { // either the very next operation finds the server in the middle of noticing, or it has had time
+			time.Sleep(3 * time.Millisecond)
+			text += " (3 ms ago)"
+		}
+	case c13brkOnce:
+		o, ok := r.once[c]
+		if !ok {
+			o = &c13once{}
+			r.once[c] = o
+			l.SetFailIf(func(f rig.Frame) error {
+				if !f.Head || f.Hdr.Service != sid || f.Hdr.Type != net.Event {
+					return nil
+				}
+				return o.write(c13val(f.Payload))
+			})
+		}
+		o.arm()
+		text = fmt.Sprintf("the Event writes of the next emission that reaches connection %d fail with EPIPE, later writes succeed", c)
+	case c13brkSlow:
+		r.slow[c] = true
+		l.SetBlockIf(func(f rig.Frame) bool { return f.Head && f.Hdr.Service == sid && f.Hdr.Type == net.Event })
+		text = fmt.Sprintf("from now on Event writes to connection %d block until its peer takes them", c)
+	default:
+		return
+	}
+	r.steps = append(r.steps, &c13rawStep{kind: 3, text: text, coq: fmt.Sprintf("(RBreak %d %d, OAck)", c, k)})
 }
 
 func (r *c13raw) fail(kind, format string, a ...interface{}) {
@@ -193,7 +307,7 @@ func c13obs(t uint8) string {
 
 // register: registerEvent(object 1, sig, uid) on connection c.
 func (r *c13raw) register(c int, sig uint32, uid uint64) *c13reg {
-	if r.stopped {
+	if r.stopped || !r.usable(c) { // no calls on a connection that cannot carry the answer
 		return nil
 	}
 	r.reader(c, sig)
@@ -212,7 +326,7 @@ func (r *c13raw) register(c int, sig uint32, uid uint64) *c13reg {
 
 // unregister: unregisterEvent(object 1, g.sig, g.uid) on g's connection: the unregistration of g itself.
 func (r *c13raw) unregister(g *c13reg) {
-	if r.stopped || g == nil || !g.acked || g.unregOp >= 0 {
+	if r.stopped || g == nil || !g.acked || g.unregOp >= 0 || !r.usable(g.c) {
 		return
 	}
 	_, t := r.call(g.c, 1, g.sig, g.uid)
@@ -229,7 +343,7 @@ func (r *c13raw) unregister(g *c13reg) {
 
 // unregisterUnknown: unregisterEvent for an id no live registration of connection c uses.
 func (r *c13raw) unregisterUnknown(c int, sig uint32, uid uint64) {
-	if r.stopped || len(r.live(c, uid)) > 0 {
+	if r.stopped || len(r.live(c, uid)) > 0 || !r.usable(c) {
 		return
 	}
 	_, t := r.call(c, 1, sig, uid)
@@ -276,11 +390,44 @@ func (r *c13raw) emit(sig uint32, k int) {
 		}
 		close(done)
 	}()
-	st := &c13rawStep{kind: 2, sig: sig, p: p}
-	select {
-	case <-done:
-	case <-time.After(c13Wait):
-		r.fail("stalled", "UpdateSignal(%d, event %d) did not return within %v", sig, p, c13Wait)
+	st := &c13rawStep{kind: 2, sig: sig, p: p, unreachable: map[int]bool{}}
+	for c := range r.bad {
+		st.unreachable[c] = true
+	}
+	for c, o := range r.once {
+		if o.armed() {
+			st.unreachable[c] = true
+		}
+	}
+	returned := func() bool {
+		select {
+		case <-done:
+			return true
+		default:
+			return false
+		}
+	}
+	slowBlocked := func() int {
+		for c := range r.slow {
+			if len(w.clients[c].c.Down.Blocked()) > 0 {
+				return c
+			}
+		}
+		return -1
+	}
+	dl := time.Now().Add(c13Wait)
+	for !returned() {
+		// a slow connection holds the emitter up for a moment; then its peer takes the frame
+		w.n.WaitFor(time.Until(dl), func() bool { return returned() || slowBlocked() >= 0 })
+		if c := slowBlocked(); c >= 0 {
+			time.Sleep(200 * time.Microsecond)
+			w.clients[c].c.Down.Release(nil)
+			continue
+		}
+		if !returned() {
+			r.fail("stalled", "UpdateSignal(%d, event %d) did not return within %v", sig, p, c13Wait)
+			break
+		}
 	}
 	var fs []rig.Frame
 	conn := map[int]int{}
@@ -357,7 +504,8 @@ func (r *c13raw) verdicts() [][2]string {
 					used[j] = true
 				}
 			}
-			inWindow := g.acked && g.op < i && (g.unregOp < 0 || i < g.unregOp)
+			// a registration on a connection in bad health is owed nothing; everybody else is owed everything
+			inWindow := g.acked && g.op < i && (g.unregOp < 0 || i < g.unregOp) && !s.unreachable[g.c]
 			switch {
 			case g.sig == s.sig && inWindow && n == 0:
 				v = append(v, [2]string{"event-lost", fmt.Sprintf("%v was acknowledged and not unregistered, but emission [%d] of its signal sent it no Event frame; sequence: %s", g, i, hist)})
@@ -399,7 +547,7 @@ func (r *c13raw) verdicts() [][2]string {
 		for _, b := range bad {
 			v = append(v, [2]string{"payload-corrupt", fmt.Sprintf("reader of signal %d on connection %d %s; sequence: %s", k[1], k[0], b, hist)})
 		}
-		if closed {
+		if closed && !r.closed[k[0]] { // closed by the sequence itself: the reader is told, as it should be
 			v = append(v, [2]string{"closed-while-subscribed", fmt.Sprintf("reader of signal %d on connection %d: its channel was closed (connection lost); sequence: %s", k[1], k[0], hist)})
 		}
 		if fmt.Sprint(got) != fmt.Sprint(want) {
@@ -511,6 +659,97 @@ func c13rawScripts() []c13rawScript {
 	}
 }
 
+// c13healthScripts: three connections register signal 200 one after the other; the one at table position pos
+// (first, middle, last) also holds a registration of signal 201 and goes bad in way k; emissions; a healthy
+// subscriber leaves (swap-remove: the table order changes) and another arrives; emissions go on.  Every healthy
+// registration is owed every emission of its signal, whatever sits before it in the table.
+func c13healthScripts() []c13rawScript {
+	var l []c13rawScript
+	for k := 0; k <= c13brkSlow; k++ {
+		for pos := 0; pos < 3; pos++ {
+			k, pos := k, pos
+			name := fmt.Sprintf("bad-health-%d-%s", k, []string{"first", "middle", "last"}[pos])
+			l = append(l, c13rawScript{name, 3, func(r *c13raw) {
+				var gs []*c13reg
+				for c := 0; c < 3; c++ {
+					gs = append(gs, r.register(c, 200, uint64(7+c%2))) // connections 0 and 2 use the same id
+				}
+				r.register(pos, 201, 9)
+				y := r.register((pos+1)%3, 201, 9)
+				r.emit(200, 0)
+				r.emit(201, 0)
+				r.breakConn(pos, k)
+				r.emit(200, 0)
+				r.emit(200, 2)
+				r.emit(201, 0)
+				r.unregister(gs[(pos+1)%3])
+				r.emit(200, 0)
+				r.register((pos+1)%3, 200, 8)
+				r.emit(200, 0)
+				r.emit(201, 0)
+				r.breakConn(pos, c13brkOnce) // only if it can still be written to
+				r.emit(200, 0)
+				r.unregister(y)
+				r.emit(201, 0)
+				r.emit(200, 3)
+			}})
+		}
+	}
+	return l
+}
+
+// c13rawRandomHealth: like c13rawRandom over 2-4 connections, with connections going bad at any time, in any way,
+// wherever their registrations are in the table; at least one connection stays in good health.
+func c13rawRandomHealth(rng *hx.Rng, r *c13raw, nconn, nops int) {
+	sigs := []uint32{200, 201, 300}
+	ids := []uint64{7, 8}
+	good := func() []int {
+		var l []int
+		for c := 0; c < nconn; c++ {
+			if r.usable(c) {
+				l = append(l, c)
+			}
+		}
+		return l
+	}
+	// a table to begin with: every connection registers something, in a random order
+	order := make([]int, nconn)
+	for i := range order {
+		j := rng.Intn(i + 1)
+		order[i] = order[j]
+		order[j] = i
+	}
+	for _, c := range order {
+		r.register(c, sigs[rng.Intn(2)], ids[rng.Intn(len(ids))])
+	}
+	for i := 0; i < nops && !r.stopped; i++ {
+		g := good()
+		switch k := rng.Intn(20); {
+		case k < 5:
+			r.register(g[rng.Intn(len(g))], sigs[rng.Intn(len(sigs))], ids[rng.Intn(len(ids))])
+		case k < 7:
+			if l := r.allLive(); len(l) > 0 {
+				r.unregister(l[rng.Intn(len(l))])
+			}
+		case k < 11:
+			kind := rng.Intn(c13brkSlow + 1)
+			if len(g) < 2 && kind <= c13brkClose {
+				kind = c13brkOnce + rng.Intn(2)
+			}
+			r.breakConn(g[rng.Intn(len(g))], kind)
+		default:
+			size := 0
+			if rng.Intn(6) == 0 {
+				size = 1 + rng.Intn(len(c13sizes)-1)
+			}
+			r.emit(sigs[rng.Intn(len(sigs))], size)
+		}
+	}
+	for _, sig := range sigs { // one last emission per signal: whoever is healthy and registered gets it
+		r.emit(sig, 0)
+	}
+}
+
 // c13rawRandom: a random sequence over nconn connections, three signals and two ids.
 func c13rawRandom(rng *hx.Rng, r *c13raw, nconn, nops int) {
 	sigs := []uint32{200, 201, 300}
@@ -568,9 +807,10 @@ func c13runRaw(res *hx.Result, rng *hx.Rng, tier string, outdir string, cfg stri
 			hung++
 		}
 	}
+	only := strings.TrimPrefix(os.Getenv("QV_C13_HEALTH"), "only:")
 	for i, sc := range c13rawScripts() {
 		for m := 0; m < 4; m++ {
-			if (tier != "thorough" && m != 0 && m != 1+i%3) || hung >= 4 {
+			if (tier != "thorough" && m != 0 && m != 1+i%3) || hung >= 4 || only != "" {
 				continue
 			}
 			c13mode = m
@@ -580,9 +820,42 @@ func c13runRaw(res *hx.Result, rng *hx.Rng, tier string, outdir string, cfg stri
 			finish(r, "raw-script-"+sc.name)
 		}
 	}
+	// connections in bad health next to healthy ones (round 5)
+	for i, sc := range c13healthScripts() {
+		if hung >= 4 {
+			break
+		}
+		c13mode = 0
+		if i%4 == 3 || tier == "thorough" {
+			c13mode = (i / 4) % 4
+		}
+		r := c13rawNew(sc.nconn)
+		c13mode = 0
+		sc.play(r)
+		finish(r, "raw-script-"+sc.name)
+	}
+	nh := 60
+	if tier == "thorough" {
+		nh = 2000
+	}
+	if only != "" {
+		fmt.Sscanf(only, "%d", &nh)
+	}
+	hrng := hx.NewRng(res.Seed*0x9e3779b97f4a7c15 + 1305)
+	for i := 0; i < nh && hung < 4; i++ {
+		c13mode = i % 4
+		nconn := 2 + hrng.Intn(3)
+		r := c13rawNew(nconn)
+		c13mode = 0
+		c13rawRandomHealth(hrng, r, nconn, 8+hrng.Intn(12))
+		finish(r, "raw-random-bad-health")
+	}
 	n := 120
 	if tier == "thorough" {
 		n = 3000
+	}
+	if only != "" {
+		n = 0
 	}
 	for i := 0; i < n; i++ {
 		if hung >= 4 {
